@@ -15,7 +15,7 @@ recorded (`ok = false`, resp. outcome `uninit`).  Each `*_defined` theorem state
 no load hits an unwritten cell, every cell of the result is written, and the result is the flat image of the row-level
 model that the correspondence check validates against the real code — hence the same for any two prior heaps.
 
-* `ilu0_defined`, `ilu0_defined_precondition`, `ilu0_no_reset_counterexample` — `ilu0::ilu0`: the pointer table `work`
+* `ilu0_defined`, `ilu0_defined_precondition`, `ilu0_defined_of_diag`, `ilu0_no_reset_counterexample` — `ilu0::ilu0`: the pointer table `work`
   is a loop-carried variable (step 4 of row `i` resets exactly what step 1 set, so every row starts from the all-NULL
   table: no stale pointer is ever followed), `D = numa_vector(n, false)` is loaded only where written; without
   step 4 the factors change on a 4×4 matrix.
@@ -75,6 +75,27 @@ theorem ilu0_defined_precondition (A : CRS K) (h : ilu0Factor A = .precondition)
     (hj : junk.size = A.nrows) : ilu0Cells true A junk = .precondition :=
   ilu0Cells_precondition A junk hj h
 
+/-- **`ilu0::ilu0` on every square matrix with in-range columns that stores the diagonal entry of each row** (sorted
+or not, duplicates allowed), for any two prior heap contents: the constructor never loads an unwritten cell and never
+follows a NULL or stale pointer — it either throws `precondition` (zero pivot / an entry right of the diagonal met
+first), identically for both heaps, or succeeds with the same completely written `D`, the same factors and `work`
+all-NULL -/
+theorem ilu0_defined_of_diag (A : CRS K) (hcols : ∀ i, i < A.nrows → ∀ cv ∈ A.row i, cv.1 < A.nrows)
+    (hdiag : ∀ i, i < A.nrows → i ∈ (A.row i).map (·.1)) (junk junk' : Array K)
+    (hj : junk.size = A.nrows) (hj' : junk'.size = A.nrows) :
+    (ilu0Cells true A junk = .precondition ∧ ilu0Cells true A junk' = .precondition) ∨
+    (∃ S, ilu0Cells true A junk = .ok S ∧ allWritten S.D = true ∧ S.work = Array.replicate A.nrows none ∧
+      ilu0Cells true A junk' = .ok S) := by
+  cases h : ilu0Factor A with
+  | ok F =>
+    right
+    obtain ⟨S, h1, h2, h3, _, h5⟩ := ilu0_defined A F h junk junk' hj hj'
+    exact ⟨S, h1, h2, h3, h5⟩
+  | precondition =>
+    left
+    exact ⟨ilu0_defined_precondition A h junk hj, ilu0_defined_precondition A h junk' hj'⟩
+  | undefinedInput => exact absurd h (ilu0Factor_defined A hcols hdiag)
+
 end ilu0
 
 /-- a 4×4 matrix whose row 0 stores column 3 and whose row 1 does not -/
@@ -92,6 +113,9 @@ example : ∃ S, ilu0Cells true exIlu #[7, 7, 7, 7] = .ok S ∧ allWritten S.D =
   obtain ⟨F, hF⟩ := h
   obtain ⟨S, h1, h2, h3, _, h5⟩ := ilu0_defined exIlu F hF #[7, 7, 7, 7] #[0, 1, 2, 3] rfl rfl
   exact ⟨S, h1, h2, h3, h5⟩
+
+/-- non-vacuity of `ilu0_defined_of_diag`: `exIlu` is square, in range, and stores every diagonal entry -/
+example := ilu0_defined_of_diag exIlu (by decide) (by decide) #[7, 7, 7, 7] #[0, 1, 2, 3] rfl rfl
 
 /-- inverted pivot of row `i` computed by the cell-level constructor (`0` if it fails) -/
 def pivotOf (reset : Bool) (A : CRS Rat) (junk : Array Rat) (i : Nat) : Rat :=
